@@ -281,8 +281,8 @@ class Ctx:
             if not name.endswith(".go"):
                 continue
             # file name <pkgdir>__<name>.go ; pkgdir "root" = /repo itself
-            pkg, _, rest = name.partition("__")
-            dst = REPO if pkg == "root" else os.path.join(REPO, pkg)
+            opkg, _, rest = name.partition("__")
+            dst = REPO if opkg == "root" else os.path.join(REPO, opkg)
             ov[os.path.join(dst, "zz_verif_" + rest)] = os.path.join(ovd, name)
         ovp = os.path.join(self.scratch, "overlay.json")
         with open(ovp, "w") as f:
